@@ -21,7 +21,7 @@ const techFold = "conditional constant propagation over go/ssa with the paramete
 
 var properties = map[string]*propDef{
 	"C01": {
-		Rules:       []string{"APPLY", "TAB-NOTE", "TAB-DEGREE", "TAB-NOTATION", "TAB-CHORDS", "TAB-ATTRS", "TAB-DEFAULTS", "EXTENDS", "PLAYLOOP", "NOTE", "OPT", "LOOKUP", "OVERRIDE", "WIRE"},
+		Rules:       []string{"APPLY", "TAB-NOTE", "TAB-DEGREE", "TAB-NOTATION", "TAB-CHORDS", "TAB-ATTRS", "TAB-DEFAULTS", "EXTENDS", "PLAYLOOP", "NOTE", "OPT", "LOOKUP", "OVERRIDE", "NARROW", "WIRE"},
 		Technique:   "affine-form dataflow on play.Key.Apply (pitch = 60 + tonic + degree + attribute / + base - 12) plus " + techTab,
 		Explanation: "the pitch arithmetic as an affine identity of Key.Apply (exactly one bass emission MiddleC+key+degree+base-12 and one tone emission MiddleC+key+degree+attribute per attribute, nothing else; every failed lookup is an error); every row of the letter, accidental, interval-size, chord and attribute tables against a first-principles specification, including the size algorithm for 1..64 x 7 qualities on the extracted model; MiddleC folds to 60 and the default bass to a unison; `extends` is inherited parent-first; the key in force is the one applied by update() before getKey() in the same iteration; flags override instance 0 only; one note-on per key.",
 		NotDecided:  "that the control flow of Degree.simpleSemitone implements the algorithm whose tables and tuples were extracted (the search loop itself is not proved); uint8 wrap-around outside the MIDI range (excluded by the property's premise); everything inside gomidi.",
@@ -75,7 +75,7 @@ var properties = map[string]*propDef{
 		NotDecided:  "absence of implicit run-time panics in general (index, nil, division); `promptly` as a quantitative statement; the behaviour of cobra / yaml.v3 on malformed flags or YAML.",
 	},
 	"C10": {
-		Rules:       []string{"SCHEMA", "CODEC", "TAB-NOTATION", "TAB-REGEX", "TAB-DYNAMICS", "TAB-DEGREE", "BASE10", "VALIDATE", "NARROW", "OPT", "APPLY", "WIRE"},
+		Rules:       []string{"SCHEMA", "CODEC", "TAB-NOTATION", "TAB-REGEX", "TAB-DYNAMICS", "TAB-DEGREE", "BASE10", "VALIDATE", "NARROW", "OPT", "APPLY", "LOOKUP", "WIRE"},
 		Technique:   "YAML schema comparison of producer and consumer types, Marshal/Unmarshal pairing, printer/parser table agreement",
 		Explanation: "what `text conv` and `write conv` hand to the YAML encoder has the key tree and scalar types `write` decodes (yaml.v3 silently ignores unknown keys, which is how this breaks); every scalar reachable from input.Instance has both directions, the decoders read the scalar text with the parser and the encoders print with String; printers and parsers share their tables (inverse maps built from the forward maps, notation marks longest-first, regex classes = printer alphabets, `/` separator numerator first, bare number = denominator 1, minor mark from capture 3); numerals are base 10.",
 		NotDecided:  "Parse(String(v)) == v for all values (a bijection over a value space); YAML quoting of arbitrary text (yaml.v3).",
@@ -151,11 +151,14 @@ var otherScope = map[string]map[string][]string{
 	"C08": {"IOLAYER": {"*|os.Stdout", "*|fmt.Print", "*|cobra.Out"}},
 	// the search over the interval table ranges over a map: it is deterministic only while exactly one row qualifies
 	// texts and the bass survive the trip through the YAML document
-	"C10": {"OPT": {"play.midiArgs.writeWhenUpdated|meta"}},
+	// ... and what `write` demands of a chord is no more than what the printers can produce (a degree that has a size)
+	"C10": {"OPT": {"play.midiArgs.writeWhenUpdated|meta"}, "LOOKUP": {"cmd.newWriteCmdArgsFromInputInstances|degree-present"}},
 	// the same tokens on one long line or on several lines: nothing may be cut silently
 	"C04": {"ERRDROP": {"*bufio.Scanner", "cmd.parseText"}},
 	"C11": {"ERRDROP": {"*bufio.Scanner"}},
 	"C16": {"REJECT": {"chord."}},
+	// pitch arithmetic: the integer types pitches, intervals and note numbers are computed in
+	"C01": {"NARROW": {"*Semitone", "*MIDINoteNumber", "*Octave", "*note.Degree", "narrow|int->uint"}},
 	"C12": {"TAB-DEGREE": {"note.Degree.simpleSemitone|adjust", "note.Degree|adjust", "note.Degree.Semitone|order"}},
 	// an unknown --key must be refused, not answered with another key's scale
 	"C13": {"ERRFLOW": {"cmd.getScale", "op.NewScale", "cmd.getKey"}},
